@@ -46,5 +46,5 @@ def run(ctx, rep, pid='C01'):
         julian.check(ctx, rep, 'R1.4')
     # Dhuhr is reported only if its clock-time conversion cannot fail (R11.4, R11.7)
     from . import shared, c11 as _c11
-    shared.include(ctx, rep, _c11.run, {'R11.4', 'R11.7'}, why='every reported hour becomes a valid clock time')
+    shared.include(ctx, rep, _c11.run, {'R11.3', 'R11.4', 'R11.7'}, why='every reported hour becomes a valid clock time (minutes from the same hour, wraps, bounded operands)')
 
